@@ -1,4 +1,5 @@
 import RaftProofs.ProtoV
+import RaftProofs.ProtoQuorum
 
 /-!
 Every event of P acts on the vote-layer projection as one of the ten V-transitions or as the
@@ -28,25 +29,32 @@ inductive ReachC (c0 : Cfg) : PSys → Prop where
   | init : ReachC c0 init
   | step {s s' : PSys} (e : Event) : ReachC c0 s → e.cfgOk c0 → applyEvent s e = .ok s' → ReachC c0 s'
 
+theorem reach_of_reachC {c0 : Cfg} {s : PSys} (h : ReachC c0 s) : Reach s := by
+  induction h with
+  | init => exact .init
+  | step e _ _ hs ih => exact .step e ih hs
+
 theorem vsys_nodes (s : PSys) (i : Nat) (n : PNode) (g : List Grant) (el : List (Nat × Nat))
-    (s' : PSys) (hn : s'.nodes = upd s.nodes i n) (hg : s'.grants = g) (he : s'.elected = el) :
+    (s' : PSys) (hn : s'.nodes = upd s.nodes i n) (hg : s'.grants = g) (he : s'.elected = el)
+    (hc : s'.ecfgs = s.ecfgs) :
     vsys s' = { setN (vsys s) i (vproj n) with grants := g, elected := el } := by
-  simp only [vsys, setN, hn, hg, he, vproj_upd]
+  simp only [vsys, setN, hn, hg, he, hc, vproj_upd]
 
 theorem vsys_mk (f : Nat → PNode) (i : Nat) (n : PNode) (r : List VoteReq) (g : List Grant) (a : List Ack)
     (ap : List App) (hb : List HB) (sn : List Snap) (cl : List Claim) (ll : Nat → List LEntry)
-    (el : List (Nat × Nat)) (eg : Nat → List LEntry) (rg : List (Grant × VGhost)) (cm : List (Nat × Nat)) (rd : RdState) :
-    vsys ⟨upd f i n, r, g, a, ap, hb, sn, cl, ll, el, eg, rg, cm, rd⟩ =
-      { nodes := updV (fun j => vproj (f j)) i (vproj n), grants := g, elected := el } := by
+    (el : List (Nat × Nat)) (eg : Nat → List LEntry) (rg : List (Grant × VGhost)) (cm : List (Nat × Nat)) (rd : RdState)
+    (ec : List (Nat × Cfg)) (cc : List ((Nat × Nat) × Cfg)) :
+    vsys ⟨upd f i n, r, g, a, ap, hb, sn, cl, ll, el, eg, rg, cm, rd, ec, cc⟩ =
+      { nodes := updV (fun j => vproj (f j)) i (vproj n), grants := g, elected := el, ecfgs := ec } := by
   simp only [vsys, vproj_upd]
 
-theorem vsys_mk' (s : PSys) : (vsys s) = { nodes := fun j => vproj (s.nodes j), grants := s.grants, elected := s.elected } := rfl
+theorem vsys_mk' (s : PSys) : (vsys s) = { nodes := fun j => vproj (s.nodes j), grants := s.grants, elected := s.elected, ecfgs := s.ecfgs } := rfl
 
 theorem vsys_mk_same (s : PSys) (i : Nat) (n : PNode) (r : List VoteReq) (a : List Ack)
     (ap : List App) (hb : List HB) (sn : List Snap) (cl : List Claim) (ll : Nat → List LEntry)
-    (eg : Nat → List LEntry) (rg : List (Grant × VGhost)) (cm : List (Nat × Nat)) (rd : RdState)
+    (eg : Nat → List LEntry) (rg : List (Grant × VGhost)) (cm : List (Nat × Nat)) (rd : RdState) (cc : List ((Nat × Nat) × Cfg))
     (hp : vproj n = vproj (s.nodes i)) :
-    vsys ⟨upd s.nodes i n, r, s.grants, a, ap, hb, sn, cl, ll, s.elected, eg, rg, cm, rd⟩ = vsys s := by
+    vsys ⟨upd s.nodes i n, r, s.grants, a, ap, hb, sn, cl, ll, s.elected, eg, rg, cm, rd, s.ecfgs, cc⟩ = vsys s := by
   rw [vsys_mk, hp]
   simp only [vsys]
   congr
@@ -54,16 +62,17 @@ theorem vsys_mk_same (s : PSys) (i : Nat) (n : PNode) (r : List VoteReq) (a : Li
 
 theorem setN_self (v : VSys) (i : Nat) : setN v i (v.nodes i) = v := by
   cases v with
-  | mk nodes grants elected =>
+  | mk nodes grants elected ecfgs =>
     simp only [setN]
     congr
     funext j; by_cases h : j = i <;> simp [updV, h]
 
 /-- a node update that leaves the vote-layer projection of the node unchanged -/
 theorem vsys_same (s s' : PSys) (i : Nat) (n : PNode) (hn : s'.nodes = upd s.nodes i n)
-    (hp : vproj n = vproj (s.nodes i)) (hg : s'.grants = s.grants) (he : s'.elected = s.elected) :
+    (hp : vproj n = vproj (s.nodes i)) (hg : s'.grants = s.grants) (he : s'.elected = s.elected)
+    (hc : s'.ecfgs = s.ecfgs) :
     vsys s' = vsys s := by
-  rw [vsys_nodes s i n s.grants s.elected s' hn hg he, hp]
+  rw [vsys_nodes s i n s.grants s.elected s' hn hg he hc, hp]
   have : (vsys s).nodes i = vproj (s.nodes i) := rfl
   rw [← this, setN_self]
   rfl
@@ -127,18 +136,18 @@ theorem og_append_nongrant (n : PNode) (m : OMsg) (hm : grantOf m = none) :
 
 
 /-- tactic-free helper: conclude from an identity of projections -/
-theorem invV_of_eq {c0 : Cfg} {v v' : VSys} (h : InvV c0 v) (e : v' = v) : InvV c0 v' := e ▸ h
+theorem invV_of_eq {v v' : VSys} (h : InvV v) (e : v' = v) : InvV v' := e ▸ h
 
 set_option maxHeartbeats 800000 in
-theorem invV_step (c0 : Cfg) (s s' : PSys) (e : Event) (hc : e.cfgOk c0)
-    (hI : InvV c0 (vsys s)) (h : applyEvent s e = .ok s') : InvV c0 (vsys s') := by
+theorem invV_step (s s' : PSys) (e : Event)
+    (hI : InvV (vsys s)) (h : applyEvent s e = .ok s') : InvV (vsys s') := by
   cases e with
   | bump i t =>
     simp only [applyEvent, ok] at h
     split at h
     · rename_i hg
       cases h
-      rw [vsys_mk]; show InvV c0 (setN (vsys s) i _)
+      rw [vsys_mk]; show InvV (setN (vsys s) i _)
       exact invV_bump hI i t hg.2
     · cases h
   | campaign i =>
@@ -146,7 +155,7 @@ theorem invV_step (c0 : Cfg) (s s' : PSys) (e : Event) (hc : e.cfgOk c0)
     split at h
     · rename_i hg
       cases h
-      rw [vsys_mk]; show InvV c0 (setN (vsys s) i _)
+      rw [vsys_mk]; show InvV (setN (vsys s) i _)
       have : vproj { s.nodes i with vote := i, role := 1, outbox := (s.nodes i).outbox ++ [.voteReq (s.nodes i).term i (lastTerm (s.nodes i).log) (s.nodes i).log.length, .grant (s.nodes i).term i i ⟨(s.nodes i).log, !(s.elected.any (fun p => p.1 = (s.nodes i).term)), lastTerm (s.nodes i).log, (s.nodes i).log.length⟩] }
           = nCampaign ((vsys s).nodes i) i := by
         simp [vproj, nCampaign, vsys, List.filterMap_append, List.filterMap_cons, grantOf]
@@ -160,7 +169,7 @@ theorem invV_step (c0 : Cfg) (s s' : PSys) (e : Event) (hc : e.cfgOk c0)
       split at h
       · rename_i hg
         cases h
-        rw [vsys_mk]; show InvV c0 (setN (vsys s) i _)
+        rw [vsys_mk]; show InvV (setN (vsys s) i _)
         have : vproj { s.nodes i with vote := c, role := 0, outbox := (s.nodes i).outbox ++ [.grant (s.nodes i).term i c ⟨(s.nodes i).log, !(s.elected.any (fun p => p.1 = (s.nodes i).term)), r.lastTerm, r.lastIdx⟩] }
             = nGrant ((vsys s).nodes i) i c := by
           simp [vproj, nGrant, vsys, List.filterMap_append, grantOf]
@@ -172,7 +181,7 @@ theorem invV_step (c0 : Cfg) (s s' : PSys) (e : Event) (hc : e.cfgOk c0)
     simp only [applyEvent, ok] at h
     split at h
     · cases h
-      rw [vsys_mk]; show InvV c0 (setN (vsys s) i _)
+      rw [vsys_mk]; show InvV (setN (vsys s) i _)
       have : vproj { s.nodes i with pending := (s.nodes i).pending ++ [image (s.nodes i)] }
           = nRdy ((vsys s).nodes i) := by
         simp [vproj, nRdy, vsys, image, VNode.vol]
@@ -186,7 +195,7 @@ theorem invV_step (c0 : Cfg) (s s' : PSys) (e : Event) (hc : e.cfgOk c0)
       split at h
       · rename_i im him
         cases h
-        rw [vsys_mk]; show InvV c0 (setN (vsys s) i _)
+        rw [vsys_mk]; show InvV (setN (vsys s) i _)
         have : vproj { s.nodes i with dterm := im.term, dvote := im.vote, dlog := im.log, dcommit := im.commit, dacks := im.acks, pending := (s.nodes i).pending.drop k }
             = nPersist ((vsys s).nodes i) (im.term, im.vote) k := by
           simp [vproj, nPersist, vsys, List.map_drop]
@@ -231,7 +240,7 @@ theorem invV_step (c0 : Cfg) (s s' : PSys) (e : Event) (hc : e.cfgOk c0)
               simp only [addReleased] at h
               cases h
               obtain ⟨k', h1, h2⟩ := filterMap_eraseIdx_some grantOf _ k _ ⟨t, vv, c⟩ hm rfl
-              rw [vsys_mk]; show InvV c0 { setN (vsys s) i _ with grants := ⟨t, vv, c⟩ :: (vsys s).grants }
+              rw [vsys_mk]; show InvV { setN (vsys s) i _ with grants := ⟨t, vv, c⟩ :: (vsys s).grants }
               have : vproj { s.nodes i with outbox := (s.nodes i).outbox.eraseIdx k }
                   = nRelease ((vsys s).nodes i) k' := by
                 simp only [vproj, nRelease, vsys, h2]
@@ -247,14 +256,14 @@ theorem invV_step (c0 : Cfg) (s s' : PSys) (e : Event) (hc : e.cfgOk c0)
     simp only [applyEvent, ok] at h
     split at h
     · cases h
-      rw [vsys_mk]; show InvV c0 (setN (vsys s) i _)
+      rw [vsys_mk]; show InvV (setN (vsys s) i _)
       exact invV_crash hI i
     · cases h
   | restart i =>
     simp only [applyEvent, ok] at h
     split at h
     · cases h
-      rw [vsys_mk]; show InvV c0 (setN (vsys s) i _)
+      rw [vsys_mk]; show InvV (setN (vsys s) i _)
       have : vproj { s.nodes i with up := true, term := (s.nodes i).dterm, vote := (s.nodes i).dvote, log := (s.nodes i).dlog, commit := (s.nodes i).dcommit, role := 0, pending := [], outbox := (s.nodes i).dacks.filter OMsg.isAck }
           = nRestart ((vsys s).nodes i) := by
         simp [vproj, nRestart, vsys, filterMap_grantOf_acks]
@@ -271,9 +280,7 @@ theorem invV_step (c0 : Cfg) (s s' : PSys) (e : Event) (hc : e.cfgOk c0)
     split at h
     · rename_i hg
       cases h
-      simp only [Event.cfgOk] at hc
-      subst hc
-      rw [vsys_mk]; show InvV _ { setN (vsys s) i _ with elected := (((vsys s).nodes i).term, i) :: (vsys s).elected }
+      rw [vsys_mk]; show InvV { setN (vsys s) i _ with elected := (((vsys s).nodes i).term, i) :: (vsys s).elected, ecfgs := (((vsys s).nodes i).term, cfg) :: (vsys s).ecfgs }
       have hall : ∀ x ∈ q, (⟨(s.nodes i).term, x, i⟩ : Grant) ∈ s.grants := by
         have := hg.2.2.2.2.2.1
         simp only [List.all_eq_true, List.contains_iff_mem] at this
@@ -281,20 +288,27 @@ theorem invV_step (c0 : Cfg) (s s' : PSys) (e : Event) (hc : e.cfgOk c0)
       have hself : (⟨(s.nodes i).term, i, i⟩ : Grant) ∈ s.grants := by
         have := hg.2.2.2.2.1
         simpa [List.contains_iff_mem] using this
-      exact invV_win hI i q hg.2.2.2.1 hg.2.2.1 hself hall
+      have hadj := hg.2.2.2.2.2.2.2.2.1
+      simp only [List.all_eq_true, Bool.or_eq_true, decide_eq_true_eq] at hadj
+      refine invV_win hI i cfg q hg.2.2.2.1 hg.2.2.1 hself hall ?_
+      intro p hp hpt q' hq'
+      have := hadj p hp
+      rcases this with hne | hok
+      · exact absurd hpt hne
+      · exact adj_intersect cfg p.2 hok q q' hg.2.2.2.1 hq'
     · cases h
   | stepDown i =>
     simp only [applyEvent, ok] at h
     split at h
     · cases h
-      rw [vsys_mk]; show InvV c0 (setN (vsys s) i _)
+      rw [vsys_mk]; show InvV (setN (vsys s) i _)
       exact invV_role0 hI i
     · cases h
   | leaderAppend i e =>
     simp only [applyEvent, ok] at h
     split at h
     · cases h
-      exact invV_of_eq hI (vsys_mk_same s i _ _ _ _ _ _ _ _ _ _ _ _ rfl)
+      exact invV_of_eq hI (vsys_mk_same s i _ _ _ _ _ _ _ _ _ _ _ _ _ rfl)
     · cases h
   | sendApp i m =>
     simp only [applyEvent, ok] at h
@@ -305,7 +319,7 @@ theorem invV_step (c0 : Cfg) (s s' : PSys) (e : Event) (hc : e.cfgOk c0)
     simp only [applyEvent, ok] at h
     split at h
     · cases h
-      rw [vsys_mk]; show InvV c0 (setN (vsys s) i _)
+      rw [vsys_mk]; show InvV (setN (vsys s) i _)
       have : vproj { s.nodes i with role := 0, log := mergeAt (s.nodes i).log m.prev m.es, outbox := (s.nodes i).outbox ++ [.ack (s.nodes i).term i (m.prev + m.es.length) ((mergeAt (s.nodes i).log m.prev m.es).take (m.prev + m.es.length))] }
           = nRole0 ((vsys s).nodes i) := by
         simp [vproj, nRole0, vsys, List.filterMap_append, grantOf]
@@ -332,25 +346,25 @@ theorem invV_step (c0 : Cfg) (s s' : PSys) (e : Event) (hc : e.cfgOk c0)
     simp only [applyEvent, ok] at h
     split at h
     · cases h
-      exact invV_of_eq hI (vsys_mk_same s i _ _ _ _ _ _ _ _ _ _ _ _ rfl)
+      exact invV_of_eq hI (vsys_mk_same s i _ _ _ _ _ _ _ _ _ _ _ _ _ rfl)
     · cases h
   | commitApp i c m =>
     simp only [applyEvent, ok] at h
     split at h
     · cases h
-      exact invV_of_eq hI (vsys_mk_same s i _ _ _ _ _ _ _ _ _ _ _ _ rfl)
+      exact invV_of_eq hI (vsys_mk_same s i _ _ _ _ _ _ _ _ _ _ _ _ _ rfl)
     · cases h
   | commitHB i c m =>
     simp only [applyEvent, ok] at h
     split at h
     · cases h
-      exact invV_of_eq hI (vsys_mk_same s i _ _ _ _ _ _ _ _ _ _ _ _ rfl)
+      exact invV_of_eq hI (vsys_mk_same s i _ _ _ _ _ _ _ _ _ _ _ _ _ rfl)
     · cases h
   | commitClaim i m =>
     simp only [applyEvent, ok] at h
     split at h
     · cases h
-      exact invV_of_eq hI (vsys_mk_same s i _ _ _ _ _ _ _ _ _ _ _ _ rfl)
+      exact invV_of_eq hI (vsys_mk_same s i _ _ _ _ _ _ _ _ _ _ _ _ _ rfl)
     · cases h
   | sendHB i to c =>
     simp only [applyEvent, ok] at h
@@ -373,7 +387,7 @@ theorem invV_step (c0 : Cfg) (s s' : PSys) (e : Event) (hc : e.cfgOk c0)
     · rename_i m hm
       split at h
       · cases h
-        rw [vsys_mk]; show InvV c0 (setN (vsys s) i _)
+        rw [vsys_mk]; show InvV (setN (vsys s) i _)
         have : vproj { s.nodes i with role := 0, log := m.pre, commit := m.idx, outbox := (s.nodes i).outbox ++ [.ack (s.nodes i).term i m.idx m.pre] }
             = nRole0 ((vsys s).nodes i) := by
           simp [vproj, nRole0, vsys, List.filterMap_append, grantOf]
@@ -386,7 +400,7 @@ theorem invV_step (c0 : Cfg) (s s' : PSys) (e : Event) (hc : e.cfgOk c0)
     split at h
     · split at h
       · cases h
-        exact invV_of_eq hI (vsys_mk_same s i _ _ _ _ _ _ _ _ _ _ _ _ rfl)
+        exact invV_of_eq hI (vsys_mk_same s i _ _ _ _ _ _ _ _ _ _ _ _ _ rfl)
       · cases h
     · cases h
   | bootstrap i donor idx =>
@@ -394,7 +408,7 @@ theorem invV_step (c0 : Cfg) (s s' : PSys) (e : Event) (hc : e.cfgOk c0)
     split at h
     · rename_i hg
       cases h
-      rw [vsys_mk]; show InvV c0 (setN (vsys s) i _)
+      rw [vsys_mk]; show InvV (setN (vsys s) i _)
       have : vproj { s.nodes i with up := true, term := (s.nodes donor).dterm, dterm := (s.nodes donor).dterm, log := (s.nodes donor).dlog.take idx, dlog := (s.nodes donor).dlog.take idx, commit := idx, dcommit := idx }
           = { (vsys s).nodes i with term := (s.nodes donor).dterm, dterm := (s.nodes donor).dterm } := by
         simp [vproj, vsys]
@@ -404,9 +418,12 @@ theorem invV_step (c0 : Cfg) (s s' : PSys) (e : Event) (hc : e.cfgOk c0)
 
 
 /-- **InvV holds in every reachable state** of P under a fixed configuration -/
-theorem invV_reach (c0 : Cfg) (s : PSys) (h : ReachC c0 s) : InvV c0 (vsys s) := by
+theorem invV_reachR (s : PSys) (h : Reach s) : InvV (vsys s) := by
   induction h with
-  | init => rw [vsys_init]; exact invV_init c0
-  | step e _ hc hs ih => exact invV_step c0 _ _ e hc ih hs
+  | init => rw [vsys_init]; exact invV_init
+  | step e _ hs ih => exact invV_step _ _ e ih hs
+
+theorem invV_reach (c0 : Cfg) (s : PSys) (h : ReachC c0 s) : InvV (vsys s) :=
+  invV_reachR s (reach_of_reachC h)
 
 end RaftModel.P
